@@ -245,6 +245,7 @@ func opScenario(r *Run, mode string) {
 		}
 	}
 	varA, varB, varT := execution.NewVariable(0, 0), execution.NewVariable(0, 1), execution.NewVariable(0, 2)
+	orderLimit := 0
 	var node execution.Node
 	want := NewMS()
 	switch opNames[op] {
@@ -332,7 +333,16 @@ func opScenario(r *Run, mode string) {
 		if desc {
 			mult = -1
 		}
-		node = nodes.NewOrderSensitiveTransform(src, []execution.Expression{varA}, []int{mult}, nil, false)
+		if hdr.Chance(1, 2) {
+			// ORDER BY a LIMIT n over a changelog: the first n of the sort order of what is left at the end
+			// (ties on the key may be broken either way: the keys are compared, and every row must be a row of the input)
+			orderLimit = 1 + hdr.Draw(4)
+			var lim execution.Expression = execution.NewConstant(octosql.NewInt(int64(orderLimit)))
+			node = nodes.NewOrderSensitiveTransform(src, []execution.Expression{varA}, []int{mult}, &lim, false)
+			attrs["limit"] = "true"
+		} else {
+			node = nodes.NewOrderSensitiveTransform(src, []execution.Expression{varA}, []int{mult}, nil, false)
+		}
 		want = in.Clone()
 	}
 
@@ -422,7 +432,30 @@ func opScenario(r *Run, mode string) {
 		r.Violate("C15", "run_error", attrs, "operator failed on a valid changelog: %v", err)
 		return
 	}
-	if d := running.Diff(want); d != "" {
+	if orderLimit > 0 {
+		// first n keys of the sorted input, and every emitted row is an input row (not more often than there)
+		var keys []int64
+		for _, row := range want.Rows() {
+			keys = append(keys, row[0].Int)
+		}
+		sort.Slice(keys, func(i, j int) bool {
+			if desc {
+				return keys[i] > keys[j]
+			}
+			return keys[i] < keys[j]
+		})
+		if len(keys) > orderLimit {
+			keys = keys[:orderLimit]
+		}
+		if fmt.Sprint(outKeys) != fmt.Sprint(keys) {
+			r.Violate("C15", "consolidated_mismatch", attrs, "ORDER BY a LIMIT %d emitted keys %v, the first %d of the sorted consolidated input are %v", orderLimit, outKeys, orderLimit, keys)
+		}
+		for _, row := range running.Rows() {
+			if running.Count(row) > want.Count(row) {
+				r.Violate("C15", "consolidated_mismatch", attrs, "ORDER BY a LIMIT %d emitted %s more often than the consolidated input holds it", orderLimit, RowString(row))
+			}
+		}
+	} else if d := running.Diff(want); d != "" {
 		r.Violate("C15", "consolidated_mismatch", attrs, "consolidated output != operator applied to consolidated input: %s", d)
 	}
 	if opNames[op] == "order_by" {
